@@ -266,7 +266,7 @@ def elabReset (s : St V) (q : Arg) : Option (List (Op V)) :=
 
 def elabStmt (A : Arith V) (s : St V) : Stmt V → Option (St V)
   | .incl _ => some s
-  | .opaque => some s
+  | .opaqueDecl => some s
   | .qreg n k => if s.qregs.any (·.1 == n) then none else some { s with qregs := s.qregs ++ [(n, k)] }
   | .creg n k => if s.cregs.any (·.1 == n) then none else some { s with cregs := s.cregs ++ [(n, k)] }
   | .gatedecl name ps qs body =>
